@@ -119,6 +119,7 @@ func ruleC03(w *World, r *Report) {
 		"R03.4 SetUpfInfo runs clearState on every path after the client exists and before any listener goroutine or return, clearState clears ⊇ the modules written; R03.5 every datapath write of the modification/deletion handlers is dominated by the found edge of store.GetSession, of the establishment handler by the node-id match and the allocated session; R03.6 accepted exits pass store.PutSession, modification programs create/update before remove and stores last; removed rules handed to the datapath are copies taken before the in-place shift; R03.7 a rule the session refused (Create/Update/Remove returned an error) is not handed to the datapath; R03.8 aliasing contract: the modification handler copies PDRs into the datapath list before MarkSessionQer runs, so MarkSessionQer must reorder qerIDList in place (through the shared backing array)."
 	r.Explanation += " R03.9 a finished session is deleted from the store under the key requests look it up by (local SEID = the SEID of the request header); R03.10 every Create/Update IE is parsed into a value declared (or zeroed) inside the loop."
 	r.Explanation += " R03.11 = C05 R05.6 (the session copy is complete); R03.12 nothing is written to a PDR after the session took its copy, no in-place writes into the lists of new PDRs; R03.13 BESS workers report true or nothing."
+	r.Explanation += " R03.14 = C06 R06.7 (SEID sequences differ per association); R03.15 = C17 R17.6 (a worker completes once, after its last entry); R03.16 every parsePDR/parseFAR/parseQER call of the session handlers files the rule under the session's UP SEID."
 	r.NotDecided = "packet-level 'iff' semantics of the installed image; what BESS does with a command"
 	bc := loadBessConf(w.Repo, P)
 
